@@ -855,7 +855,7 @@ def r148(P, u, rep, cg, facts):
     pure = _pure_string_fns(u, cg)
 
     def m_tmp(it, ctx, n, args):
-        s = Sym(ctx.fresh('tmp'), 'char *')
+        s = Obj(None, lazy=False, label=ctx.fresh('tmp'))      # a non-null pointer with an identity and no concrete name
         ctx.emit('call', 'create_tmpfile', args, n.line, s)
         return s
     models = dict(L.string_models())
@@ -938,10 +938,17 @@ def _check_pipeline_names(rep, key0, sc, ctx, ins, expect, w):
             stages.append(('ld', [('linker-input', ident(v)) for v in pushed], [('linker-output', ident(args[1]))], e[3]))
     cmdline = set(ins)
     written = {}
+    unread = set()
     finals = []
     for i, (st, reads, writes, line) in enumerate(stages):
         wh = '%s:%d' % (U, line)
+        seen_reads = [r[1] for r in reads]
+        dup = [r for r in set(seen_reads) if seen_reads.count(r) > 1 and r[0] != 'null']
+        if dup:
+            rep.ob('R14.8', key0 + ':%s-listed-twice' % reads[0][0], False,
+                   'scenario %s: one stage is given the same file %d times (%s): the result of another input is missing' % (sc, seen_reads.count(dup[0]), dup[0][1] if dup[0][0] == 'name' else 'a temporary'), where=wh)
         for role, idv in reads:
+            unread.discard(idv)
             if idv[0] == 'tmp':
                 ok = idv in written
                 rep.ob('R14.8', key0 + (':%s-temporary-was-written' % role if ok else ':%s-is-unwritten-temporary' % role), ok,
@@ -962,9 +969,10 @@ def _check_pipeline_names(rep, key0, sc, ctx, ins, expect, w):
                        '(or two inputs with the same base name) overwrite and unlink each other\'s intermediate file'
                        % (sc, role, repr(idv[1]) if idv[0] == 'name' else 'a value the analysis cannot name'), where=wh)
                 if ok:
-                    once = idv not in written
-                    rep.ob('R14.8', key0 + (':temporary-written-once' if once else ':temporary-written-twice'), once,
-                           'scenario %s: two stages write the same temporary' % sc, where=wh)
+                    fresh = idv not in unread
+                    rep.ob('R14.8', key0 + (':temporary-read-before-reuse' if fresh else ':%s-overwrites-unread-temporary' % role), fresh,
+                           'scenario %s: the %s overwrites a temporary whose previous content no stage has read yet: the intermediate result of another input is lost' % (sc, role), where=wh)
+                    unread.add(idv)
             elif idv[0] == 'null':
                 pass            # standard output
             elif idv[0] == 'name':
@@ -1068,7 +1076,7 @@ def _r148_cc1(P, u, rep, cg):
 def r149(P, rep, cg, reach_main):
     rep.rule('R14.9', 'when opening an input file for reading fails, every function on the call chain either ends the process through a diagnostic (non-zero exit) '
                       'or returns a failure value that none of its successful paths returns, and every caller of such a function does the same: '
-                      'the failure is never dropped (a translation unit compiled without a file it was told to read, exit 0)', floor=4)
+                      'the failure is never dropped (a translation unit compiled without a file it was told to read, exit 0)', floor=3)
     terminators = set(L.HARD_EXIT) | set(L.SOFT_EXIT) | set(L.ERROR_FNS) | {'__assert_fail'}
     alldefs = set(cg.defs)
     # work items: (callee G, failure value c)
@@ -1213,6 +1221,10 @@ def _r148_handover(P, u, rep, cg, facts, pure):
     launchers = sorted(facts.get('fork_fns', ()))
     if 'run_cc1' not in u.functions or 'parse_args' not in u.functions or not launchers:
         rep.undecided('R14.8', '%s:run_cc1:handover-anchors' % U, 'run_cc1 / parse_args / the subprocess launcher not all found')
+        return
+    gone = [g for g in ('base_file', 'output_file', 'opt_cc1') if g not in u.globals]
+    if gone:
+        rep.undecided('R14.8', '%s:run_cc1:handover-globals' % U, 'globals %s not found: cannot tell where parse_args stores the names run_cc1 hands over' % '/'.join(gone))
         return
     base = ['chibicc', '-c', 'x.c']
     src = 'sub.d/net.v4.c'
